@@ -83,8 +83,30 @@ def gen_alloc(rng):
     return kind, cells
 
 
+def to_decimal(cells, rng):
+    """Rescale a dyadic layout to multiples of 0.1 / 0.01 (not representable in binary64)."""
+    k = rng.choice([F(1, 10), F(3, 10), F(7, 100), F(11, 10)])
+    out = []
+    for c in cells:
+        r = dict(c["rect"])
+        for f in ("cx", "cy", "w", "h"):
+            r[f] = r[f] * k
+        al = [[m, (q * 16).__floor__() / F(16) if False else q] for m, q in c["alloc"]]
+        al = [[m, rng.choice([F(1, 10), F(3, 10), F(1, 2), F(7, 10), F(1), F(0)]) if q not in (0, 1) else q] for m, q in al]
+        out.append({"rect": r, "alloc": al, "depth": c["depth"]})
+    return out
+
+
 def gen_case(rng):
     kind, cells = gen_alloc(rng)
+    if rng.random() < 0.2:
+        cells = to_decimal(cells, rng)
+        ops = []
+        for _ in range(rng.choice([1, 2, 3])):
+            o = rng.choice(["refine", "refine", "uniform", "griddify"])
+            ops.append(["refine", rng.choice([F(1, 10), F(3, 10), F(1, 2), F(7, 10), F(1)]), rng.choice([1, 2, 3])] if o == "refine" else [o])
+        return {"kind": "decimal-" + kind, "stream": "decimal", "cells": cells, "ops": ops,
+                "ths": [F(0), F(3, 10), F(1, 2), F(7, 10), F(1)], "eps": None, "aeps": None}
     ops = []
     for _ in range(rng.choice([1, 1, 1, 2, 3, 4])):
         o = rng.choice(["refine", "refine", "uniform", "griddify"])
@@ -123,7 +145,8 @@ def alloc_obs(a):
 def run_impl(case):
     from frame.geometry.geometry import Rectangle
     Rectangle.undefine_epsilon()
-    Rectangle.set_epsilon(float(case["eps"]), float(case["aeps"]))
+    if case.get("stream") != "decimal":
+        Rectangle.set_epsilon(float(case["eps"]), float(case["aeps"]))
     try:
         try:
             a = build_alloc(case["cells"])
@@ -184,6 +207,8 @@ def gop(o):
 
 
 def to_coq(case, obs):
+    if case.get("stream") == "decimal":
+        return "true"          # decimal inputs: direct oracle only (the model is exact arithmetic)
     aeps, eps = gq(case["aeps"]), gq(case["eps"])
     q = gq(RATIO_F)
     C0 = gcells(case["cells"])
